@@ -896,8 +896,12 @@ class RaopRig(Rig):
                                    "sent": self.sent[snap["nsent"]:], "raised": raised})
 
 
+MRP_CAPS = {"a": "Absolute", "b": "Both", "r": "Relative", "n": "None"}
+CONFIRM_DELAY = 0.02      # seconds (virtual) between a command and the device's VOLUME_DID_CHANGE
+
+
 class MrpRig(Rig):
-    async def setup(self, initial):
+    async def setup(self, initial, caps="a"):
         from pyatv.const import Protocol
         from pyatv.core import CoreStateDispatcher, ProtocolStateDispatcher
         from pyatv.protocols.mrp import MrpAudio, protobuf
@@ -926,13 +930,26 @@ class MrpRig(Rig):
                 self.listeners[msgtype] = func
 
             async def send(self, message):
+                if message.type == protobuf.ProtocolMessage.SEND_HID_EVENT_MESSAGE:
+                    data = message.inner().hidEventData[43:49]      # use page, usage, down (messages.send_hid_event)
+                    usage, down = int.from_bytes(data[2:4], "big"), int.from_bytes(data[4:6], "big")
+                    if usage in (0xE9, 0xEA) and not down:       # volume key released: the device steps
+                        rig.ev("key:" + ("u" if usage == 0xE9 else "d"))
+                        step = 0.05 if usage == 0xE9 else -0.05
+                        base = rig.device_level if math.isfinite(rig.device_level) else 0.5
+                        asyncio.ensure_future(rig.confirm_later(min(max(base + step, 0.0), 1.0)))
+                    return
                 level = message.inner().volume
                 rig.sent.append(level)
                 rig.ev("wire:" + tok(level))
-                if rig.echo:    # the device acknowledges with a volume-did-change
+                if rig.echo:    # the device confirms with a volume-did-change, a little later
                     back = rig.hostile if rig.hostile is not None else level
+                    rig.faithful = rig.hostile is None
                     rig.hostile = None
-                    asyncio.ensure_future(rig.device_reports(back))
+                    asyncio.ensure_future(rig.confirm_later(back))
+
+            async def send_and_receive(self, message, *args, **kwargs):
+                return message
 
         self.proto = FakeProtocol()
         core = CoreStateDispatcher()
@@ -940,7 +957,11 @@ class MrpRig(Rig):
         msg = protobuf.ProtocolMessage()
         msg.type = protobuf.ProtocolMessage.VOLUME_CONTROL_AVAILABILITY_MESSAGE
         msg.inner().volumeControlAvailable = True
-        msg.inner().volumeCapabilities = protobuf.VolumeCapabilities.Absolute
+        msg.inner().volumeCapabilities = getattr(protobuf.VolumeCapabilities, MRP_CAPS[caps])
+        self.caps = caps
+        self.device_level = initial
+        self.faithful = True
+        self.step_checks = []        # (op, level before, immediate read-back)
         await self.proto.listeners[protobuf.VOLUME_CONTROL_AVAILABILITY_MESSAGE](msg)
         orig_set = self.audio.set_volume
 
@@ -957,6 +978,21 @@ class MrpRig(Rig):
         self.entries.clear()
         self.initial_volume = self.expected
         return self
+
+    async def confirm_later(self, device_level):
+        await asyncio.sleep(CONFIRM_DELAY)
+        await self.device_reports(device_level)
+
+    async def settle(self):
+        """let every pending confirmation arrive (virtual time) before the next operation"""
+        await asyncio.sleep(3 * CONFIRM_DELAY)
+        await self.flush()
+
+    def read_now(self):
+        try:
+            return self.atv.audio.volume
+        except Exception as exc:
+            return "raise:" + err_class(exc)
 
     async def device_reports(self, device_level, uid="verif-uid"):
         """The device sends VolumeDidChange(device_level in 0..1) for output device `uid`.  For
@@ -975,6 +1011,7 @@ class MrpRig(Rig):
             # not read back from the object under test: a handler that alters the reported level
             # (clamps, snaps, ignores it) then disagrees with the model and with the oracle
             self.expected = round(msg.inner().volume * 100.0, 1)
+            self.device_level = msg.inner().volume
             self.entries.append(["p:" + tok(self.expected), []])
         else:
             self.entries.append(["o:" + tok(msg.inner().volume * 100.0), []])
@@ -1057,8 +1094,8 @@ async def run_two_devices(ops, with_client):
     return a, b
 
 
-async def run_mrp_history(ops, initial):
-    rig = await MrpRig().setup(initial)
+async def run_mrp_history(ops, initial, caps="a"):
+    rig = await MrpRig().setup(initial, caps)
     for op, x in ops:
         if op == "report":
             await rig.device_reports(x / 100.0 if math.isfinite(x) else x)
@@ -1067,11 +1104,17 @@ async def run_mrp_history(ops, initial):
         else:
             if op == "set" and x is not None and isinstance(x, float) and math.isfinite(x) and int(x * 7) % 11 == 0:
                 rig.hostile = (x - 60.0) / 100.0      # now and then the device answers with nonsense
-            reported = rig.expected
+            reported, device_before = rig.expected, rig.device_level
+            rig.faithful = True
             await rig.user_op(op, x)
+            evs = list(rig.entries_last[1])
             if op in ("read", "up", "down"):
-                rig.report_checks.append((op, reported, list(rig.entries_last[1])))
-        await rig.flush()
+                rig.report_checks.append((op, reported, evs))
+            # the operation has RETURNED: with absolute volume control the device's confirmation
+            # has been awaited, so the level reads back at once (before the loop runs again)
+            if op in ("set", "up", "down") and caps in ("a", "b") and rig.faithful and not any(e.startswith("raise:") for e in evs):
+                rig.step_checks.append((op, x, reported, evs, rig.read_now(), device_before))
+        await rig.settle()
     return rig
 
 
@@ -1112,10 +1155,30 @@ def history_problems(proto, ops, rig, utils):
             if evs != want and not (in_pct(reported) and len(evs) == 1 and evs[0].startswith("ret:") and same(evs[0][4:], reported)):
                 problems.append((f"{proto}:reported-level-not-respected",
                                  f"the device reported {reported!r} %, audio.volume -> {evs} (expected {want})"))
-        elif not in_pct(reported) and not (reported == (100.0 if op == "up" else 0.0)):
+        elif getattr(rig, "caps", "a") == "a" and not in_pct(reported) and not (reported == (100.0 if op == "up" else 0.0)):
             if evs != ["raise:protocol"]:
                 problems.append((f"{proto}:step-from-invalid-report",
                                  f"the device reported {reported!r} %, volume_{op} -> {evs} (ProtocolError required, nothing sent)"))
+    # MRP with absolute volume control: once set_volume / volume_up / volume_down has returned,
+    # audio.volume reads the new level (to the 0.1 % the device reports in)
+    for op, x, before, evs, got, device_before in getattr(rig, "step_checks", []):
+        if op == "set":
+            want = x if in_pct(x) else None
+        elif any(e.startswith("key:") for e in evs):
+            # relative control: the device chooses the step (the fake one: +-0.05 of its own
+            # level, kept within 0..1) and confirms it; the call has waited for that
+            base = device_before if math.isfinite(device_before) else 0.5
+            stepped = min(max(base + (0.05 if op == "up" else -0.05), 0.0), 1.0)
+            want = round(struct.unpack("<f", struct.pack("<f", stepped))[0] * 100.0, 1)
+        elif not in_pct(before):
+            want = None
+        else:
+            want = min(before + 5.0, 100.0) if op == "up" else max(before - 5.0, 0.0)
+        if want is None:
+            continue
+        if not isinstance(got, (int, float)) or abs(got - want) > 0.0501:
+            what = f"set_volume({x!r})" if op == "set" else f"volume_{op} from {before!r}"
+            problems.append((f"{proto}:read-back-differs", f"{what} returned ({evs}), audio.volume then reads {got!r} instead of {want!r}"))
     # read-back: while nothing else changed the level, audio.volume returns the level last set
     for want, got in getattr(rig, "readbacks", []):
         if not isinstance(got, (int, float)) or abs(got - want) > TOL_READBACK:
@@ -1260,6 +1323,10 @@ def fixed_histories():
         for lvl in REPORT_POOL + [100.0, 0.0, 50.0]:     # device report, then read / step / read
             fixed.append(("mrp", [("report", lvl), ("read", None), ("up", None), ("read", None), ("report", lvl), ("down", None), ("read", None)], {"initial": 0.5}))
             fixed.append(("raop", [("report", lvl), ("read", None), ("up", None), ("read", None)], {"client": False}))
+        for caps in "abrn":          # every volume capability; the confirmation arrives with a delay
+            fixed.append(("mrp", [("set", 20.0), ("read", None), ("up", None), ("up", None), ("read", None), ("down", None), ("read", None)], {"initial": 0.0, "caps": caps}))
+            fixed.append(("mrp", [("set", 98.0), ("up", None), ("up", None), ("read", None), ("set", 33.3), ("read", None), ("set", 0.0), ("down", None), ("read", None)], {"initial": 0.5, "caps": caps}))
+            fixed.append(("mrp", [("report", 150.0), ("up", None), ("down", None), ("read", None), ("set", 101.0), ("set", NAN)], {"initial": 0.5, "caps": caps}))
         # the multi-device cases first
         fixed.sort(key=lambda t: t[0] != "raop2")
         return fixed
@@ -1277,7 +1344,7 @@ def random_histories(ctx, rng, count):
                 burst = sorted(rng.sample(range(n), rng.randint(0, n // 2))) if rng.chance(0.3) else []
                 todo.append(("raop", random_history(rng, n, "raop"), {"client": rng.chance(0.5), "burst": burst}))
             else:
-                todo.append(("mrp", random_history(rng, n, "mrp"), {"initial": rng.choice([0.0, 1.0, 0.5, 0.33, 0.97, 0.02])}))
+                todo.append(("mrp", random_history(rng, n, "mrp"), {"initial": rng.choice([0.0, 1.0, 0.5, 0.33, 0.97, 0.02]), "caps": rng.choice("aaabbrn")}))
 
     return todo
 
@@ -1291,7 +1358,7 @@ def evaluate_histories(ctx, utils, todo):
             elif proto == "raop2":
                 out.append(await run_two_devices(ops, opt.get("client", False)))
             else:
-                out.append(await run_mrp_history(ops, opt["initial"]))
+                out.append(await run_mrp_history(ops, opt["initial"], opt.get("caps", "a")))
         return out
 
     # one fresh virtual-time loop per batch (wait_for timeouts cost nothing)
@@ -1309,7 +1376,7 @@ def evaluate_histories(ctx, utils, todo):
         if proto == "raop":
             lines.append(f"raop f none {encode_ops(rig.entries)}")
         else:
-            lines.append(f"mrp f {tok(rig.initial_volume)} {encode_ops(rig.entries)}")
+            lines.append(f"mrp f {rig.caps} {tok(rig.initial_volume)} {encode_ops(rig.entries)}")
     answers = ctx.lean(lines)
     failures_before = len(ctx.failures)
     for (proto, ops, rig, case, allops), model in zip(records, answers):
@@ -1382,7 +1449,7 @@ def check_reachable(ctx, utils):
                 for op in ("up", "down"):
                     rig.audio._volume = st
                     await rig.user_op(op)
-                    await rig.flush()
+                    await rig.settle()
                     steps += 1
                     nxt.append(rig.audio._volume)
             frontier = nxt
@@ -1464,7 +1531,7 @@ def replay(ctx, failure):
                 rigs = [("raop", [(o, x) for o, x in ops if not o.startswith("B:")], a),
                         ("raop", [(o[2:], x) for o, x in ops if o.startswith("B:")], b)]
             else:
-                rigs = [("mrp", ops, vloop.run(run_mrp_history, ops, opt["initial"]))]
+                rigs = [("mrp", ops, vloop.run(run_mrp_history, ops, opt["initial"], opt.get("caps", "a")))]
         finally:
             unpatch_raop()
         return any(history_problems(p, o, r, utils) for p, o, r in rigs)
